@@ -167,10 +167,15 @@ func conflictFree(in []string) []string {
 
 func genKey() *rapid.Generator[string] {
 	return rapid.Custom(func(t *rapid.T) string {
-		d := rapid.IntRange(1, 3).Draw(t, "depth")
+		d := rapid.SampledFrom([]int{1, 2, 2, 3, 3}).Draw(t, "depth")
 		parts := make([]string, d)
 		for i := range parts {
-			parts[i] = rapid.SampledFrom(names).Draw(t, "name")
+			// the upper levels use fewer names, so that directories hold several entries
+			if i < d-1 {
+				parts[i] = rapid.SampledFrom([]string{"a", "a", "ab", "b", "a.b"}).Draw(t, "dir")
+			} else {
+				parts[i] = rapid.SampledFrom(names).Draw(t, "name")
+			}
 		}
 		return strings.Join(parts, "/")
 	})
@@ -520,7 +525,11 @@ func TestPropListPagination(t *testing.T) {
 		if allowE {
 			cli = s3Empty
 		}
-		raw := rapid.SliceOfN(genKey(), 0, 20).Draw(t, "keys")
+		nKeys := rapid.IntRange(0, 20).Draw(t, "nKeys")
+		raw := make([]string, nKeys)
+		for i := range raw {
+			raw[i] = genKey().Draw(t, "key")
+		}
 		puts := conflictFree(raw)
 		mp := rapid.SampledFrom([]string{"none", "none", "inflight", "inflight", "completed"}).Draw(t, "multipart")
 		mpKey := ""
@@ -546,16 +555,29 @@ func TestPropListPagination(t *testing.T) {
 			var r listReq
 			r.v2 = rapid.Bool().Draw(t, "v2")
 			switch pk := rapid.IntRange(0, 9).Draw(t, "prefixKind"); {
-			case pk <= 1 || len(b.keys) == 0 && pk <= 6:
+			case pk <= 1 || len(b.keys) == 0 && pk <= 7:
 				r.prefix = ""
-			case pk <= 6:
+			case pk <= 4:
+				// the directory part of a key: "a/", "a/ab/"
+				k := rapid.SampledFrom(b.keys).Draw(t, "prefixOf")
+				var cuts []int
+				for i := range k {
+					if k[i] == '/' {
+						cuts = append(cuts, i+1)
+					}
+				}
+				if len(cuts) == 0 {
+					cuts = append(cuts, 1)
+				}
+				r.prefix = k[:rapid.SampledFrom(cuts).Draw(t, "cut")]
+			case pk <= 7:
 				k := rapid.SampledFrom(b.keys).Draw(t, "prefixOf")
 				r.prefix = k[:rapid.IntRange(1, len(k)).Draw(t, "cut")]
 			default:
 				r.prefix = rapid.SampledFrom([]string{"zz", "a/", "a/b", "a", "b/", "ab/a", "a.b/"}).Draw(t, "prefixConst")
 			}
 			r.delim = rapid.SampledFrom([]string{"", "/"}).Draw(t, "delimiter")
-			r.maxKeys = rapid.SampledFrom([]int{1, 1, 2, 2, 3, 4, 5, 0}).Draw(t, "maxKeys")
+			r.maxKeys = rapid.SampledFrom([]int{1, 1, 1, 2, 2, 3, 4, 5, 0}).Draw(t, "maxKeys")
 			r.style = rapid.SampledFrom([]string{"token", "lastkey"}).Draw(t, "style")
 			if r.delim != "" {
 				r.style = "token"
